@@ -17,10 +17,13 @@ from .sexp import Q
 class Ctx:
     """One verification condition's worth of z3 declarations."""
 
-    def __init__(self, abstract_order=False):
+    def __init__(self, abstract_order=False, relativize_int=False):
         # abstract_order: comparisons other than =/!= become uninterpreted predicates on G. Validity under
         # the abstraction implies validity under the real order (used only to turn `unknown` into `unsat`).
         self.abstract_order = abstract_order
+        # relativize_int: an integer-sorted bound variable is a G-sorted solver variable x guarded by is_int(x) and
+        # read through ival(x) (an equivalent reading that lines quantifiers of mixed sorts up for the solver)
+        self.relativize_int = relativize_int
         self.twin = None   # deliberately wrong reference variants, used only by vacuity twins
         self.G = None
         self._mk_sorts()
@@ -231,14 +234,21 @@ class Ctx:
     _uniq = 0
 
     def _pull(self, f):
-        """exists Z (exists I (phi) and psi)  ==>  exists Z I' (phi' and psi) with I' globally fresh: existential
-        quantifiers distribute out of conjunctions (classically and in HT, static domain)."""
-        if not self.one_point or f[0] != 'exists':
+        """exists Z (exists I (phi) and psi)  ==>  exists Z I' (phi' and psi), and
+        forall X ((exists I (phi) and chi) -> psi)  ==>  forall X I' ((phi' and chi) -> psi), with I' globally fresh.
+        Both are intuitionistically valid prenex laws (so they hold classically and in HT, static domain)."""
+        if not self.one_point:
+            return f
+        if f[0] == 'exists':
+            conj = f[2]
+        elif f[0] == 'forall' and f[2][0] == 'imp':
+            conj = f[2][1]
+        else:
             return f
         vs = list(f[1])
         units = []
         changed = False
-        for u in _flatten(f[2], 'and'):
+        for u in _flatten(conj, 'and'):
             if u[0] == 'exists':
                 u = self._pull(u)
                 body = u[2]
@@ -256,11 +266,88 @@ class Ctx:
         body = units[0]
         for u in units[1:]:
             body = ('and', body, u)
-        return ('exists', tuple(vs), body)
+        if f[0] == 'exists':
+            return ('exists', tuple(vs), body)
+        return ('forall', tuple(vs), ('imp', body, f[2][2]))
+
+    @staticmethod
+    def _quantify(tag, bound, guards, body):
+        if not bound:
+            return body
+        if tag == 'forall':
+            return z3.ForAll(bound, z3.Implies(z3.And(*guards), body) if guards else body)
+        return z3.Exists(bound, z3.And(*(guards + [body])) if guards else body)
+
+    def _find_defs(self, units, block):
+        """Choose defining equations v = t for variables of the block (acyclic). Preference: right-hand sides
+        that mention no still-undefined block variable; then remainder elimination I = A + R => R := I - A;
+        then any other acyclic definition."""
+        eqs = [c for c in units if c[0] == 'cmp' and len(c) == 4 and str(c[2]) == '=']
+        defs = {}
+
+        def ok_kind(k, t):
+            kind = self.term_kind(t)
+            if k[1] == 'i' and kind == 's':
+                return False
+            if k[1] == 's' and kind != 's':
+                return False
+            return True
+
+        phase = {'pulled_only': True}
+
+        def definable(k):
+            return k is not None and k in block and k not in defs and (not phase['pulled_only'] or '#' in k[0])
+
+        def round_simple(strict):
+            changed = False
+            for c in eqs:
+                for v_t, t in ((c[1], c[3]), (c[3], c[1])):
+                    k = _var_key(v_t)
+                    if not definable(k):
+                        continue
+                    tv = term_vars(t, set())
+                    if k in tv or not ok_kind(k, t):
+                        continue
+                    if strict and any(d in block and d not in defs and (not phase['pulled_only'] or '#' in d[0])
+                                      for d in tv):
+                        continue
+                    if _depends(tv, k, defs):
+                        continue
+                    defs[k] = t
+                    changed = True
+                    break
+            return changed
+
+        def round_remainder():
+            for c in eqs:
+                for lhs, rhs in ((c[1], c[3]), (c[3], c[1])):
+                    if rhs[0] == 'add' and self.term_kind(lhs) == 'i':
+                        for a_, r_ in ((rhs[1], rhs[2]), (rhs[2], rhs[1])):
+                            k = _var_key(r_)
+                            others = term_vars(a_, set()) | term_vars(lhs, set())
+                            if (definable(k) and k[1] == 'i'
+                                    and k not in others and not _depends(others, k, defs)):
+                                defs[k] = ('sub', lhs, a_)
+                                return True
+            return False
+
+        # first the variables pulled out of nested existentials (named name#k), then the block's own
+        for pulled_only in (True, False):
+            phase['pulled_only'] = pulled_only
+            while True:
+                while round_simple(True):
+                    pass
+                if round_remainder():
+                    continue
+                if round_simple(False):
+                    continue
+                break
+        return defs
 
     def _bind(self, f, env):
         """Bind the quantifier block of f. For existential blocks over a conjunction the one-point rule
-        exists v (v = t and phi) <-> phi[v := t] is applied while building the z3 term (a logical
+        exists v (v = t and phi) <-> phi[v := t] (and its dual for universal blocks over an implication) is
+        applied while building the z3 term (a logical
         equivalence, valid classically and in HT because equality is world-independent); the defining
         equality is still translated, so sort side conditions (an integer variable equated with a general
         term) remain as residual conjuncts."""
@@ -270,41 +357,25 @@ class Ctx:
             if k not in block:
                 block.append(k)
         defs = {}
+        conj = None
         if self.one_point and f[0] == 'exists':
-            for c in _flatten(f[2], 'and'):
-                if c[0] == 'cmp' and len(c) == 4 and str(c[2]) == '=':
-                    # I = A + R with R bound and occurring nowhere else in the equation: R := I - A
-                    for lhs, rhs in ((c[1], c[3]), (c[3], c[1])):
-                        if rhs[0] == 'add' and self.term_kind(lhs) == 'i':
-                            for a_, r_ in ((rhs[1], rhs[2]), (rhs[2], rhs[1])):
-                                k = _var_key(r_)
-                                if (k is not None and k[1] == 'i' and k in block and k not in defs
-                                        and k not in term_vars(a_, set()) and k not in term_vars(lhs, set())
-                                        and not _depends(term_vars(a_, set()) | term_vars(lhs, set()), k, defs)):
-                                    defs[k] = ('sub', lhs, a_)
-                    for v_t, t in ((c[1], c[3]), (c[3], c[1])):
-                        k = _var_key(v_t)
-                        if k is None or k not in block or k in defs:
-                            continue
-                        tv = term_vars(t, set())
-                        if k in tv:
-                            continue
-                        kind = self.term_kind(t)
-                        if k[1] == 'i' and kind == 's':
-                            continue
-                        if k[1] == 's' and kind != 's':
-                            continue
-                        # acyclic: t must not (transitively) depend on k through earlier definitions
-                        if _depends(tv, k, defs):
-                            continue
-                        defs[k] = t
-                        break
+            conj = f[2]
+        elif self.one_point and f[0] == 'forall' and f[2][0] == 'imp':
+            conj = f[2][1]          # forall v (v = t and A -> B)  <->  (A -> B)[v := t]
+        if conj is not None:
+            defs = self._find_defs(_flatten(conj, 'and'), block)
         env2 = dict(env)
         bound = []
+        self._guards = []
         for k in block:
             if k not in defs:
-                c = self.fresh_const('%s$%s' % k, self.sort_of(k[1]))
-                env2[k] = c
+                if k[1] == 'i' and self.relativize_int:
+                    c = self.fresh_const('%s$%s' % k, self.G)
+                    env2[k] = self.G.ival(c)
+                    self._guards.append(self.G.is_int(c))
+                else:
+                    c = self.fresh_const('%s$%s' % k, self.sort_of(k[1]))
+                    env2[k] = c
                 bound.append(c)
         # evaluate definitions in dependency order
         pending = dict(defs)
@@ -346,10 +417,9 @@ class Ctx:
         if tag in ('forall', 'exists'):
             f = self._pull(f)
             bound, env2 = self._bind(f, env)
+            guards = self._guards
             body = self.cl(f[2], env2, predmap, world)
-            if not bound:
-                return body
-            return z3.ForAll(bound, body) if tag == 'forall' else z3.Exists(bound, body)
+            return self._quantify(tag, bound, guards, body)
         raise ValueError('formula %r' % (f,))
 
     def ht(self, f, w, env=None, predmap=None):
@@ -379,10 +449,9 @@ class Ctx:
         if tag in ('forall', 'exists'):
             f = self._pull(f)
             bound, env2 = self._bind(f, env)
+            guards = self._guards
             body = self.ht(f[2], 'h', env2, predmap)
-            if not bound:
-                return body
-            return z3.ForAll(bound, body) if tag == 'forall' else z3.Exists(bound, body)
+            return self._quantify(tag, bound, guards, body)
         raise ValueError('formula %r' % (f,))
 
     def subset_conditions(self, preds):
